@@ -16,7 +16,7 @@ Arr(es) == [k |-> "arr", es |-> es]
 Strs == {<<>>, <<97>>, <<97, 98>>, <<97, 98, 97>>, <<32, 97, 9>>, <<233>>, <<65, 98>>, <<97, 44, 98>>, <<98, 233, 97>>, <<20320, 97>>}
 Needles == {<<97>>, <<98>>, <<97, 98>>, <<44>>, <<233>>, <<120>>, <<97, 97>>}
 NumStrs == {<<49, 50>>, <<50, 46, 53>>, <<45, 51>>, <<48, 46, 50, 53>>, <<55>>}
-Bounds == {-12, -4, 0, 4, 8, 20, 2, 6}                \* -3 -1 0 1 2 5 0.5 1.5
+Bounds == {-12, -4, 0, 4, 8, 20, 2, 6, -2, -6, -10}     \* -3 -1 0 1 2 5 0.5 1.5 -0.5 -1.5 -2.5 (floored, then counted from the end)
 Nums == {-10, -4, 0, 4, 9, 16, 11, 64, 1, -1, 100}    \* -2.5 -1 0 1 2.25 4 2.75 16 .25 -.25 25
 
 Calls ==
